@@ -250,6 +250,13 @@ class TokenizerModel:
                 model.appropriate_exprs[sname] = st.value
                 model.idiom_hits["appropriate-prelude"] = model.idiom_hits.get("appropriate-prelude", 0) + 1
                 return False
+            if isinstance(st, ast.If) and not st.orelse and isinstance(st.test, ast.Call) and norm(st.test.func) == "any" and \
+                    len(st.test.args) == 1 and isinstance(st.test.args[0], (ast.GeneratorExp, ast.ListComp)):
+                # the duplicate-attribute search written as `if any(<name> == n for n, _ in <earlier>): <parse error>`
+                calls = [c for c in ast.walk(ast.Module(body=st.body, type_ignores=[])) if isinstance(c, ast.Call)]
+                if calls and all(norm(c.func) == "self.tokenQueue.append" and model._is_error_token(c.args[0]) for c in calls):
+                    out.effects.append(_Eff(ast.Expr(value=ast.Constant("dupcheck")), "dupcheck"))
+                    return False
             if isinstance(st, ast.For):
                 # (a) duplicate-attribute report loop: only parse errors
                 calls = [c for c in ast.walk(st) if isinstance(c, ast.Call)]
@@ -325,7 +332,8 @@ class TokenizerModel:
         else:
             return None
         if not (isinstance(test, ast.If) and not test.orelse and
-                [norm(s) for s in test.body] == ["matched = False", "break"]):
+                ([norm(s) for s in test.body] == ["matched = False", "break"] or
+                 ([norm(s) for s in test.body] == ["break"] and st.orelse))):          # flag form / for-else form
             return None
         t = norm(test.test)
         tgt = norm(st.target)
